@@ -99,6 +99,10 @@ def plan(prop, tier):
                  # a Clean consolidates / prunes between the growth of a fork of a fork and the header that makes it best
                  sc(["subscribe", G, G, G, "clean", G, G], subs=1, N=5, D=2, P=1, shape=(0, 1, 1, 3, 3), works=(1, 3),
                     scnum=600 if quick else 6000),
+                 # main chain, a side branch X low down, a cousin C higher up that becomes best, then a branch of X that
+                 # overtakes it: the fork point between old and new best lies below where C left the main chain (C07-11)
+                 sc(["subscribe", G, G, G, G, G, G, G, G], subs=1, N=8, D=8, P=8, shape=(0, 1, 1, 2, 2, 3, 6, 6), works=(1, 3),
+                    scnum=600 if quick else 6000),
                  # a subscriber that registers after a Save (same repository object), then reorganisations
                  sc([G, G, "save", "subscribe", G, G, "clean", G], subs=1, N=5, D=1, P=2)]
     elif prop == "C08":
